@@ -70,6 +70,10 @@ X25519_OUTPUT_PATTERNS = {
     "first_limb_zero": list(range(0, 8)),
     "last_limb_zero": list(range(24, 32)),
 }
+# every proper non-empty subset of the four 64-bit limbs zeroed (a zero check that reads a limb twice, or skips
+# one, sees "all zero" for exactly one of these)
+for _mask in range(1, 15):
+    X25519_OUTPUT_PATTERNS["limbs_zero_mask_%x" % _mask] = [8 * l + j for l in range(4) if (_mask >> l) & 1 for j in range(8)]
 
 
 def x25519_structured_outputs(rnd, sk_bytes, tries=400):
